@@ -23,7 +23,7 @@ DRIVER = 'Driver/C02.lean'
 REQUIRED_THEOREMS = ['CfVerif.C02.' + n for n in (
     'trace_wf', 'connected_only_when_tables_complete', 'fully_only_when_all_values', 'sync_open_returns',
     'fault_reaches_disconnected', 'link_error_outputs', 'fault_inside_open_link', 'sync_open_raises_on_fault_inside_open_link',
-    'reconnectable', 'handshake_completes', 'in_callback_action', 'repaired_D28', 'early_fully_connected_counterexample', 'repaired_D29', 'ext_type_confusion_counterexample',
+    'reconnectable', 'handshake_completes', 'in_callback_action', 'repaired_D28', 'early_fully_connected_counterexample', 'is_connected_only_while_connected', 'connected_ts_cleared_on_every_disconnected', 'repaired_D29', 'ext_type_confusion_counterexample',
     'completion_test_walks_the_table', 'param_updated_stores', 'repaired_D26', 'late_first_packet_cb_counterexample', 'aborted_fetcher_cannot_finish', 'aborted_fetcher_counterexample', 'repaired_D1', 'repaired_D21',
     'sync_open_hangs_counterexample', 'stale_fetcher_counterexample',
     'M2.repaired_D2_D3_D4_D22', 'M2.no_thread_death', 'M2.no_deadlock', 'M2.disconnected_in_bounded_steps',
@@ -197,6 +197,17 @@ def extract(ctx):
             a = n.args[0]
             dcbs.append((n.lineno, ast.unparse(a.body) if isinstance(a, ast.Lambda) else ast.unparse(a)))
     g.strings('ctorDisconnectedCbs', [t for _, t in sorted(dcbs) if 'logger' not in t])
+    # `is_connected()` (connected_ts) is cleared on EVERY `disconnected` (close_link and link errors alike): by a method
+    # registered on the Caller in the constructor that assigns `self.connected_ts = None`
+    clears = False
+    for _, t in dcbs:
+        if t.startswith('self.') and '(' not in t:
+            m = [n for n in C.body if isinstance(n, ast.FunctionDef) and n.name == t[len('self.'):]]
+            clears = clears or any('self.connected_ts = None' == ast.unparse(x) for fn in m for x in _walk_stmts(_stmts(fn)))
+    g.raw('def connectedTsClearedOnDisconnected : Bool := ' + _bool(clears))
+    ptu = X.find(C, '_param_toc_updated_cb')
+    seq = _key_events(ptu, ['self.connected_ts = ', 'self.connected.call'])
+    g.raw('def connectedTsSetBeforeConnected : Bool := ' + _bool(seq[:2] == ['self.connected_ts = ', 'self.connected.call']))
     ccbs = []
     for n in ast.walk(ctor):
         if isinstance(n, ast.Call) and ast.unparse(n.func) == 'self.connected.add_callback':
@@ -896,8 +907,9 @@ def gen_m1_cases(ctx):
                 for pid in range(len(dev[3]) + 1):
                     if not thorough and what == 'dup' and (k + pid) % 2:
                         continue
+                    ending = session_endings()[(k + pid) % len(session_endings())][1]
                     cases.append(('extra-packet', dev, [('open', 1)] + pump(k) + [('inj', what, pid)] + pump(n) +
-                                  [('inj', 'upd', pid), ('close',), ('sopen', 1)] + pump(max(0, k - 2)) + [('inj', what, pid)] + pump(n) + [('sclose',)]))
+                                  [('inj', 'upd', pid)] + ending + [('sopen', 1)] + pump(max(0, k - 2)) + [('inj', what, pid)] + pump(n) + [('sclose',)]))
     # (2b) fault INSIDE open_link (the error callback runs while get_link_driver()/connect() has not returned), plain and
     #      blocking, followed by: retry at once / retry after close / a stale error report / a second in-connect failure
     for dev in devs[:3]:
@@ -1025,6 +1037,16 @@ def search_m2(ctx):
     run_m2(ctx, 40 if ctx.tier == 'thorough' else 3, witness=witness)
 
 
+def session_endings():
+    """every way a session on the object can end (the next `open` is only executed when no live link is left)"""
+    return [('close', [('close',)]),
+            ('driver-error', [('err',)]),
+            ('sender-error', [('arm',), ('close',)]),              # close_link's own set-point fails: error fan-out, then close's
+            ('sender-error-in-dispatch', [('arm',)] + pump(3) + [('err',)]),
+            ('error-in-callback', [('dact', 'p', 'err'), ('err',)]),
+            ('close-in-callback', [('dact', 'a', 'close'), ('close',)])]
+
+
 def search(ctx):
     search_m2(ctx)
     rng = ctx.rng
@@ -1052,6 +1074,17 @@ def search(ctx):
                 for pid in range(len(dv[3]) + 1):
                     scripts.append((dv, [('open', 1)] + pump(k) + [('inj', what, pid)] + pump(m) + [('inj', what, pid), ('close',)],
                                     ('open', k, 'extra-packet-%s' % what)))
+    # histories: a first session that got to `progress` and ENDED IN EVERY POSSIBLE WAY, then a second attempt on the same
+    # object during which an extra packet arrives at every point
+    thorough = ctx.tier == 'thorough'
+    for dv in ((True, 1, 0, (False, False, False)), (True, 0, 1, (True, True))):
+        m = handshake_len(dv)
+        for pname, prog in (('mid', pump(m // 2)), ('full', pump(m))) + ((('early', pump(2)),) if thorough else ()):
+            for ename, ending in session_endings():
+                for k in range(0, m + 1):
+                    for pid in ((0, len(dv[3]) - 1, len(dv[3])) if thorough else (0, len(dv[3]) - 1)):
+                        scripts.append((dv, [('open', 1)] + prog + ending + [('open', 1)] + pump(k) + [('inj', 'upd', pid)] + pump(m) + [('close',)],
+                                        ('open', k, 'extra-packet-upd-after-%s-%s' % (pname, ename))))
     for opener in ('open', 'sopen'):
         for tail in ([], [('close',)], [(opener, 3)]):
             scripts.append((dev, [(opener, 3)] + tail + [(opener, 1)] + pump(n) + [('close',)], (opener, 0, 'inside-open-link')))
@@ -1079,6 +1112,14 @@ def search(ctx):
                             'D21-stale-fetcher-after-aborted-attempt' if k > 0 else 'tables-incomplete-at-connected',
                             '%s signalled with log=%d/%d param=%d/%d values=%d' % (ev, nlog, d[1], npar, len(d[3]), nval),
                             {'dev': dev_line(d), 'ops': [op_line(o) for o in executed]}, fault_position=k, fault=fault)
+        for j, line in enumerate(out[:-1]):
+            parts = line.split(' ')
+            outs = [] if parts[1] == '-' else parts[1].split(',')
+            if 'disconnected' in outs and 'connected' not in outs[outs.index('disconnected'):] and ('conn=1' in parts or 'open=1' in parts):
+                ctx.witness('still-connected-after-disconnected',
+                            'after `disconnected` was delivered the object still reports %s' % ' '.join(x for x in parts[2:] if x in ('conn=1', 'open=1')),
+                            {'dev': dev_line(d), 'ops': [op_line(o) for o in executed[:j + 1]]}, fault_position=k, fault=fault)
+                break
         if waiting != 'none':
             ctx.witness(('sync-open-blocks-fault-%s' % fault if fault in ('inside-open-link', 'before-first-packet') else
                          'D1-sync-open-blocks-after-link-loss') if waiting == 'open' else 'sync-close-blocks',
